@@ -220,9 +220,12 @@ func (p *c12) Init(tier string) {
 	}
 }
 
-func (p *c12) NumCases() int { return len(p.cases) }
+func (p *c12) NumCases() int { return len(p.cases) + 1 }
 
 func (p *c12) Describe(i int) any {
+	if i == len(p.cases) {
+		return map[string]any{"kind": "a function registered again between two evaluations: 7 queries x 3 x 3 registration calls, with an options value shared by two prepared queries and with one query executed twice; both must equal a fresh query"}
+	}
 	c := p.cases[i]
 	return map[string]any{"query": c.sql, "form@position": c.sig, "explored": fmt.Sprintf("3 documents; every map iteration order within %d deviation(s); schedules within 1 preemption for goroutine-spawning queries; executed twice in one process", p.bound)}
 }
@@ -247,10 +250,10 @@ func c12Docs() []func() map[string]any {
 	return []func() map[string]any{
 		func() map[string]any {
 			return map[string]any{
-				"t": []any{row(0, 1, "x", 1, 2), row(1, 2, "y"), row(2, 3, "x", 0)},
-				"u": []any{map[string]any{"b": "x", "c": 2.0}, map[string]any{"b": "y", "c": 3.0}, map[string]any{"b": "x", "c": 1.0}},
-				"m": []any{[]any{row(0, 1, "x", 1)}, []any{row(1, 2, "y"), row(2, 3, "x", 4)}},
-				"w": manyGroups(),
+				"t":    []any{row(0, 1, "x", 1, 2), row(1, 2, "y"), row(2, 3, "x", 0)},
+				"u":    []any{map[string]any{"b": "x", "c": 2.0}, map[string]any{"b": "y", "c": 3.0}, map[string]any{"b": "x", "c": 1.0}},
+				"m":    []any{[]any{row(0, 1, "x", 1)}, []any{row(1, 2, "y"), row(2, 3, "x", 4)}},
+				"w":    manyGroups(),
 				"cube": []any{[]any{[]any{row(0, 1, "x", 1)}, []any{row(1, 2, "y")}}},
 			}
 		},
@@ -266,6 +269,10 @@ func c12Docs() []func() map[string]any {
 func (p *c12) RunCase(i int) *core.CaseResult {
 	r := &core.CaseResult{}
 	defer withUsage(r, "C12")()
+	if i == len(p.cases) {
+		runChangedC12(r)
+		return r
+	}
 	c := &p.cases[i]
 	r.BoundDone = p.bound
 	for di, mk := range c12Docs() {
